@@ -483,6 +483,48 @@ def check_report():
     return problems, rows
 
 
+def check_value_lists():
+    """sentences ending in a formatted value list (data types, operator types): the values printed in the generated report
+    must be the set-valued class constant the predicate body reads.  [problem dicts], number of sentences compared"""
+    import ast
+    import inspect
+    from ethosu.vela.data_type import DataType
+    from ethosu.vela.operation import Op
+    from ethosu.vela.tflite_mapping import BUILTIN_OPERATOR_UNKNOWN, optype_to_builtintype
+    from ethosu.vela.tflite_model_semantic import TFLiteSemantic
+    from ethosu.vela.tflite_supported_operators import TFLiteSupportedOperators
+    md, (ops, has_spec, generic, spec) = generated_report()
+    printed_lines = [t for t, _ in generic] + [t for v in spec.values() for t in v]
+    problems, n = [], 0
+    for cls in (TFLiteSemantic, TFLiteSupportedOperators):
+        tree = ast.parse(inspect.getsource(sys.modules[cls.__module__]))
+        cnode = [x for x in tree.body if isinstance(x, ast.ClassDef) and x.name == cls.__name__][0]
+        for node in cnode.body:
+            if not (isinstance(node, ast.FunctionDef) and node.name.startswith("constraint_")):
+                continue
+            template = ast.get_docstring(node, clean=False) or ""
+            if not template.endswith(": {}") or template.count("{}") != 1:
+                continue
+            prefix = template[:-2]
+            lines = [t for t in printed_lines if t.startswith(prefix)]
+            consts = sorted(set(x.attr for x in ast.walk(node) if isinstance(x, ast.Attribute) and isinstance(x.value, ast.Name)
+                                and x.value.id == "cls" and isinstance(getattr(cls, x.attr, None), (set, frozenset))))
+            if not lines or len(consts) != 1:
+                continue   # not printed for any operator / not a single enforced set: nothing to compare here
+            n += 1
+            enforced = set()
+            for e in getattr(cls, consts[0]):
+                if isinstance(e, DataType):
+                    enforced.add(str(e))
+                elif isinstance(e, Op) and optype_to_builtintype(e) is not BUILTIN_OPERATOR_UNKNOWN:
+                    enforced.add(str(optype_to_builtintype(e)))
+            printed = set(x for x in lines[0][len(prefix):].split(", ") if x)
+            if printed != enforced:
+                problems.append(dict(constraint=node.name, sentence=lines[0], class_constant=consts[0],
+                                     printed_but_not_enforced=sorted(printed - enforced), enforced_but_not_printed=sorted(enforced - printed)))
+    return problems, n
+
+
 def report_vs_checked_in():
     """informational: generated report vs the tree's SUPPORTED_OPS.md"""
     md, _ = generated_report()
@@ -592,6 +634,61 @@ def n_ew(kind, s1, s2, so=None, dt="int8", scale2=None):
         y = net.tensor(list(shp), dt, q[0], q[1])
         net.op(kind, [a, b], [y], {} if kind in ("MINIMUM", "MAXIMUM") else dict(FusedActivationFunction=0))
         net.output(y)
+        return net
+    return f
+
+
+def n_ew2(kind, dt, act=0, shape=(1, 8, 8, 4), scalar2=False):
+    """elementwise operator with quantised tensors of any integer type (int32 included) and a fused activation code"""
+    def f(rng):
+        net = ng.Net("e2")
+        a = net.input(list(shape), dt, 0.05, 0, name="input0")
+        if scalar2:
+            b = net.tensor([], dt, 0.05, 0, 3)
+        else:
+            b = net.input(list(shape), dt, 0.05, 0, name="input1")
+        mm = kind in ("MINIMUM", "MAXIMUM")
+        y = net.tensor(list(shape), dt, 0.05 if mm else 0.1, 0)
+        net.op(kind, [a, b], [y], {} if mm else dict(FusedActivationFunction=act))
+        net.output(y)
+        return net
+    return f
+
+
+def n_conv_act(code):
+    def f(rng):
+        net = n_conv()(rng)
+        net.ops[-1]["opts"]["FusedActivationFunction"] = code
+        return net
+    return f
+
+
+def n_tconv_per_axis():
+    def f(rng):
+        net = n_tconv((2, 2), (3, 3), "SAME")(rng)
+        w, b = net.ops[-1]["inputs"][1], net.ops[-1]["inputs"][3]
+        w.scale, w.zp, w.qdim = [0.01, 0.02, 0.03, 0.04], [0, 0, 0, 0], 0
+        b.scale, b.zp, b.qdim = [0.05 * x for x in w.scale], [0, 0, 0, 0], 0
+        return net
+    return f
+
+
+def n_dw_per_axis():
+    def f(rng):
+        net = ng.Net("d")
+        net.output(ng.depthwise(net, rng, _inp(net, (1, 16, 16, 4)), (3, 3), (1, 1), (1, 1), "SAME", per_axis=True))
+        return net
+    return f
+
+
+def n_pad(dt):
+    def f(rng):
+        net = ng.Net("pd")
+        x = _inp(net, (1, 4, 4, 8))
+        pt = net.tensor([4, 2], dt, None, None, [[0, 0], [1, 1], [1, 1], [0, 0]])
+        y = net.tensor([1, 6, 6, 8], x.dtype, x.scale, x.zp)
+        net.op("PAD", [x, pt], [y], {})
+        net.output(ng.conv2d(net, rng, y, 8, (3, 3), (1, 1), (1, 1), "VALID", per_axis=False))
         return net
     return f
 
@@ -848,6 +945,27 @@ NETS = [
     ("argmax_d128", n_argmax((1, 4, 4, 128)), "ARG_MAX", "depth 128"),
     ("argmax_axis1", n_argmax((1, 4, 4, 8), axis=1), "ARG_MAX", "axis 1"),
     ("l2norm_then_conv", n_cpu_type("L2_NORMALIZATION"), "L2_NORMALIZATION", "type outside supported_operators"),
+    # one operator per value of each value list the report prints (data types, operator types), and one just outside
+    ("add_int32_q", n_ew2("ADD", "int32"), "ADD", "tensor type int32 / int32 operator list: ADD"),
+    ("mul_int32_q", n_ew2("MUL", "int32"), "MUL", "int32 operator list: MUL"),
+    ("sub_int32_q", n_ew2("SUB", "int32"), "SUB", "int32 operator list: SUB"),
+    ("max_int32_q", n_ew2("MAXIMUM", "int32"), "MAXIMUM", "int32 tensors, operator not in the int32 list"),
+    ("add_int64_q", n_ew2("ADD", "int64"), "ADD", "tensor type int64 (not listed)"),
+    ("add_int8_relu", n_ew2("ADD", "int8", 1), "ADD", "fused RELU, output int8"),
+    ("mul_uint8_relu_n1", n_ew2("MUL", "uint8", 2), "MUL", "fused RELU_N1_TO_1, output uint8"),
+    ("sub_int16_relu6", n_ew2("SUB", "int16", 3), "SUB", "fused RELU6, output int16"),
+    ("add_int32_relu", n_ew2("ADD", "int32", 1), "ADD", "fused RELU, output int32 (not in the fused-activation output types)"),
+    ("mul_int32_relu6", n_ew2("MUL", "int32", 3), "MUL", "fused RELU6, output int32"),
+    ("sub_int32_relu_n1", n_ew2("SUB", "int32", 2), "SUB", "fused RELU_N1_TO_1, output int32"),
+    ("conv_fused_relu", n_conv_act(1), "CONV_2D", "fused RELU"),
+    ("conv_fused_relu_n1", n_conv_act(2), "CONV_2D", "fused RELU_N1_TO_1"),
+    ("conv_fused_relu6", n_conv_act(3), "CONV_2D", "fused RELU6"),
+    ("conv_fused_sign_bit", n_conv_act(5), "CONV_2D", "fused SIGN_BIT (not listed)"),
+    ("dw_per_axis", n_dw_per_axis(), "DEPTHWISE_CONV_2D", "per-axis quantisation: DEPTHWISE_CONV_2D"),
+    ("tconv_per_axis", n_tconv_per_axis(), "TRANSPOSE_CONV", "per-axis quantisation: TRANSPOSE_CONV"),
+    ("pad_int32_pads", n_pad("int32"), "PAD", "pad tensor int32"),
+    ("pad_int64_pads", n_pad("int64"), "PAD", "pad tensor int64"),
+    ("add_scalar_input", n_ew2("ADD", "int8", 0, scalar2=True), "ADD", "scalar input, operator in the scalar-input list"),
 ]
 THOROUGH_ACCS = compiles.U55 + compiles.U65
 
@@ -1044,6 +1162,34 @@ def doc_oracle(sentence, f, summary):
     m = re.fullmatch(r"IFM depth must be no greater than (\d+)", s)
     if m:
         return f["ifm"]["shape"][-1] <= int(m.group(1))
+    # sentences ending in a value list (data types / operator types)
+    main = [t for t in (f["ifm"], f["ifm2"], f["weights"], f["ofm"]) if t is not None]
+    act = {0: None, 1: "RELU", 2: "RELU_N1_TO_1", 3: "RELU6", 4: "TANH", 5: "SIGN_BIT"}.get(f["opts"].get("FusedActivationFunction", 0), "?")
+    m = re.fullmatch(r"Tensors must be of type: (.*)", s)
+    if m:
+        return all(t["type"] in m.group(1).split(", ") for t in main)
+    m = re.fullmatch(r"Tensors which are int32 are only valid when op type is: (.*)", s)
+    if m:
+        return not any(t["type"] == "int32" for t in main) or f["code"] in m.group(1).split(", ")
+    m = re.fullmatch(r"Per-axis quantization is only supported for the following op types: (.*)", s)
+    if m:
+        per_axis = any(t["quant"] and (len(t["quant"]["scale"]) > 1 or len(t["quant"]["zero_point"]) > 1) for t in main)
+        return f["code"] in m.group(1).split(", ") or not per_axis
+    m = re.fullmatch(r"The fused activation function \(if present\) must be one of type: (.*)", s)
+    if m:
+        return act is None or act in m.group(1).split(", ")
+    m = re.fullmatch(r"If a fused activation function is present, the Output tensor must be one of type: (.*)", s)
+    if m:
+        return act is None or f["ofm"]["type"] in m.group(1).split(", ")
+    m = re.fullmatch(r"Optional Bias tensor must be of type: (.*)", s)
+    if m:
+        return f["bias"] is None or f["bias"]["type"] in m.group(1).split(", ")
+    m = re.fullmatch(r"Pad tensor must be of type: (.*)", s)
+    if m:
+        return len(f["ins"]) > 1 and f["ins"][1] is not None and f["ins"][1]["type"] in m.group(1).split(", ")
+    m = re.fullmatch(r"Scalar Input tensors are only valid for op type: (.*)", s)
+    if m:
+        return not any(t is not None and t["shape"] == [] for t in f["ins"]) or f["code"] in m.group(1).split(", ")
     return None
 
 
@@ -1297,6 +1443,11 @@ def run(tier):
         key = {"kind": "report_lists_not_enforced_set", "operator": p.get("operator", "*")}
         viol(key, p, "generated report does not list exactly the enforced constraints for %s: not listed %r, listed but not enforced %r" % (
             p.get("operator", "the operator table"), p.get("enforced_but_not_listed", p.get("missing")), p.get("listed_but_not_enforced", p.get("extra"))))
+    vproblems, vcount = check_value_lists()
+    for p in vproblems:
+        viol({"kind": "report_value_list_differs_from_enforced_set", "constraint": p["constraint"]}, p,
+             "the generated report prints %r for %s but the predicate enforces cls.%s: printed but not enforced %r, enforced but not printed %r" % (
+                 p["sentence"], p["constraint"], p["class_constant"], p["printed_but_not_enforced"], p["enforced_but_not_printed"]))
     for name, d in doc_diffs.items():
         if d["documented"] == 0 and d["real"] == 1:
             kind, cause = "npu_although_listed_constraint_fails", "documented_sentence_stricter_than_code"
@@ -1332,10 +1483,12 @@ def run(tier):
         meta[name] = (opcode, what)
         if tier == "thorough":
             accs = THOROUGH_ACCS if i < n_fixed else [rot[i % 6], rot[(i + 3) % 6]]
-        elif name.startswith("pair_") and name.split("_")[-1] in ("logistic", "tanh", "swish", "relu"):
+        elif name.startswith("pair_conv_s4_") and name.split("_")[-1] in ("logistic", "tanh", "swish", "relu"):
             accs = THOROUGH_ACCS   # LUT fusing depends on the accelerator's SHRAM layout: all six (relu: leaky_relu)
+        elif name.startswith("pair_") and name.split("_")[-1] in ("logistic", "tanh", "swish", "relu"):
+            accs = [rot[i % 2], rot[2 if i % 2 == 0 else 5]]   # one with SHRAM LUT banks, one without
         else:
-            accs = [rot[i % 6]] + ([rot[(i + 3) % 6]] if i % 5 == 0 else [])
+            accs = [rot[i % 6]] + ([rot[(i + 3) % 6]] if i % 10 == 0 else [])
         for acc in accs:
             jobs.append({"tflite": path, "sha": sha, "args": ["--accelerator-config", acc] + EXTRA_ARGS.get(name, []), "capture": False,
                          "family": "c16:" + name, "seed": "c16"})
@@ -1386,6 +1539,7 @@ def run(tier):
         "networks_all_listed_hold": inside, "networks_some_listed_fails": outside, "failing_constraint_histogram": dict(per_constraint),
         "correspondence": cstats, "model_vs_real_differences": len(model_diffs),
         "documented_vs_enforced_differences": sorted(doc_diffs), "report_rows_checked": rrows, "report_problems": len(rproblems),
+        "report_value_lists_checked": vcount, "report_value_list_problems": len(vproblems),
         "generated_vs_checked_in_report": report_vs_checked_in()[:12],
         "evaluations": cstats["cases"] + analysed + rrows, "distinct_nontrivial": cstats["distinct"] + len(nets),
         "rule": "correspondence: distinct (constraint, real answer, parameters) triples evaluated on real Operation objects by the real "
